@@ -25,6 +25,9 @@ def build_problem(ps):
     if kind == "boxdomain":
         _, _, n, m, kw = ps
         return gen.boxdomain_problem(rng, n, m, **kw)
+    if kind == "banded":
+        _, _, n, m, kw = ps
+        return gen.banded_qp(rng, n, m, **kw)
     if kind == "degenerate":
         return gen.degenerate_problem(rng, ps[2])
     if kind == "saddle":
